@@ -254,11 +254,17 @@ theorem rankedNextGo_subset (frm : Option Cand) (allowed : List Cand) (take : Bo
       · split at hx <;> exact ih _ x hx
     | shared cs =>
       simp only [rankedNextGo] at hx
-      split at hx
-      · split at hx
-        · have := (List.mem_filter.mp hx).2; simpa using this
-        · exact ih _ x hx
-      · exact ih _ x hx
+      have key : ∀ (cond : Bool), x ∈ (if cond = true then
+            (if cs.filter (fun c => decide (c ∈ allowed)) ≠ [] then cs.filter (fun c => decide (c ∈ allowed))
+              else rankedNextGo frm allowed true rest)
+          else rankedNextGo frm allowed false rest) → x ∈ allowed := by
+        intro cond hc
+        split at hc
+        · split at hc
+          · have := (List.mem_filter.mp hc).2; simpa using this
+          · exact ih _ x hc
+        · exact ih _ x hc
+      exact key _ hx
 
 theorem rankedNext_subset (b : Ballot) (frm : Option Cand) (allowed : List Cand) :
     ∀ x ∈ rankedNext b frm allowed, x ∈ allowed := rankedNextGo_subset _ _ _ _
